@@ -3,7 +3,7 @@
 set -u
 if [ "$1" = "-" ]; then patch=/dev/null; else patch=$(realpath "$1") || exit 9; [ -f "$patch" ] || { echo "no such patch $1"; exit 9; }; fi; tier=$2; shift 2
 wt=$(mktemp -d /tmp/trypatch.XXXXXX)
-trap 'git -C /repo worktree remove --force "$wt" >/dev/null 2>&1; rm -rf "$wt"' EXIT
+trap 'git -C /repo worktree remove --force "$wt" >/dev/null 2>&1; rm -rf "$wt"; rm -f /verif/replays/*@* /verif/evidence/*@*' EXIT
 git -C /repo worktree add -q --detach "$wt" "${BASE:-HEAD}" || exit 9
 [ "$patch" = "/dev/null" ] || git -C "$wt" apply "$patch" || { echo "PATCH DOES NOT APPLY"; exit 9; }
 for id in "$@"; do
